@@ -2,6 +2,18 @@
 from vlib import *
 
 
+def reader_job(ctx, kind):
+    """DgramReader.tla: the real DatagramDecoder::read (what udp_pipe polls and drops every T/4) under cancellation"""
+    ctx.build("dgr")
+    s = ctx.tlc("MCDgramReader", "MCDgramReader.cfg", workers=2, timeout=600,
+                require_actions=("ReadTail", "StartRead", "Cancel", "Deliver", "Eof"))
+    ctx.spec_must_hold(s)
+    r = ctx.harness("dgr", ["--vectors", s["out"], "--kinds", kind], name="dgr." + kind)
+    if r["counters"].get("tlc_behaviours_replayed", 0) == 0:
+        raise ToolError("MCDgramReader exported no behaviours")
+    return s, r
+
+
 def run(ctx):
     ctx.build("c06")
     acts = ("Deliver", "StepLength", "StepFixedHeader", "StepAppName", "StepPayload", "StepDropping")
@@ -22,6 +34,10 @@ def run(ctx):
         if r["counters"].get("tlc_behaviours_replayed", 0) == 0:
             raise ToolError("no behaviours were exported by TLC")
         os.remove(s["out"]) if ctx.thorough else None
+    s, r = reader_job(ctx, "udp")
+    states += s["distinct"]
+    trans += s["states"]
+    behaviours += r["counters"].get("tlc_behaviours_replayed", 0)
     ev = sum(r["evaluations"] for r in ctx.harness_runs)
     nt = sum(r["distinct_nontrivial"] for r in ctx.harness_runs)
     return ctx.finish("model_checking", {
@@ -29,7 +45,7 @@ def run(ctx):
         "traces_validated_against_impl": behaviours,
         "replayed_behaviours": behaviours,
         "evaluations": ev, "distinct_nontrivial": nt,
-        "rule": "every behaviour TLC generates for UdpCodec.tla (record sequences over 14 record kinds x chunkings at field-boundary classes, byte-at-a-time) is replayed chunk by chunk into the real Decoder comparing emitted datagrams and decoder state; each record sequence is additionally cut at every 1- and 2-cut byte position (3-cut thorough) against the output TLC predicts; encoder vectors from Wire.UdpOut. Non-trivial = more than one chunk or at least one record that must be skipped; distinct by (record names, chunking).",
+        "rule": "every behaviour TLC generates for UdpCodec.tla (record sequences over 14 record kinds x chunkings at field-boundary classes, byte-at-a-time) is replayed chunk by chunk into the real Decoder comparing emitted datagrams and decoder state; each record sequence is additionally cut at every 1- and 2-cut byte position (3-cut thorough) against the output TLC predicts; encoder vectors from Wire.UdpOut; DgramReader.tla (reads of the multiplexer stream dropped by udp_pipe's T/4 timer, several records per chunk, records across chunks) replayed on the real DatagramDecoder through a gated byte source. Non-trivial = more than one chunk or at least one record that must be skipped; distinct by (record names, chunking).",
         "samples": samples,
         "exhaustive": True,
         "explanation": "TLC checks Exact/Prompt/PrefixAlways/Resync/BufBounded on the decoder model for all scenarios; the real decoder is bound by step-wise replay of every TLC behaviour.",
